@@ -10,6 +10,7 @@ import (
 	"fmt"
 	"html"
 	"io"
+	"net"
 	"net/http"
 	"net/http/httptest"
 	"net/netip"
@@ -507,6 +508,27 @@ func hostileFor(src string, set int) string {
 	return strings.ReplaceAll(hostileSets[set][0], "@", strings.ReplaceAll(src, "-", "_"))
 }
 
+// a local tracker that always fails with the reason given in the query
+var trackerOnce sync.Once
+var trackerAddr string
+
+func failingTracker() string {
+	trackerOnce.Do(func() {
+		ln, err := net.Listen("tcp4", "127.0.0.1:0")
+		if err != nil {
+			return
+		}
+		trackerAddr = ln.Addr().String()
+		go http.Serve(ln, http.HandlerFunc(func(w http.ResponseWriter, r *http.Request) {
+			reason := strings.TrimPrefix(r.URL.Path, "/E/")
+			body := fmt.Sprintf("d14:failure reason%d:%se", len("E "+reason), "E "+reason)
+			w.Header().Set("Content-Length", fmt.Sprint(len(body)))
+			w.Write([]byte(body))
+		}))
+	})
+	return trackerAddr
+}
+
 func runWebUI(c *Case, out *Out) {
 	setup()
 	viol := func(key, what string) {
@@ -519,7 +541,12 @@ func runWebUI(c *Case, out *Out) {
 	dirc := "D " + hostileFor("dir-component", set)
 	filec := "F " + hostileFor("file-component", set) + ".bin"
 	nl := "line1\nline2.mp3"
+	// the tracker answers with a failure reason taken from the request path
 	trk := "http://tracker.example/ann?x=" + hostileFor("tracker-url", set)
+	if a := failingTracker(); a != "" {
+		// (the announce replaces the query, so the reason travels in the path)
+		trk = "http://" + a + "/E/" + url.PathEscape(hostileFor("tracker-error", set)) + "?x=" + hostileFor("tracker-url", set)
+	}
 	wsu := "http://seed.example/base/" + hostileFor("webseed-url", set) + "/"
 	spec := mktor.Spec{Name: name, PieceLen: 2 * CS, Seed: uint64(c.ID) + 5, Trackers: []string{trk}, Webseeds: []string{wsu},
 		Files: []mktor.File{{Path: []string{dirc, filec}, Length: 30000}, {Path: []string{dirc, nl}, Length: 5000}, {Path: []string{"plain.txt"}, Length: 777}}}
@@ -529,6 +556,14 @@ func runWebUI(c *Case, out *Out) {
 		return
 	}
 	defer l.stop()
+	if tl := l.t.Trackers(); len(tl) > 0 && len(tl[0]) > 0 && trackerAddr != "" {
+		actx, cc := context.WithTimeout(context.Background(), 5*time.Second)
+		tl[0][0].Announce(actx, l.t.Hash, l.t.MyId, 10, 0, 0, 0, "", func(netip.AddrPort) bool { return true })
+		cc()
+		if st, err := tl[0][0].GetState(); err == nil || !strings.Contains(err.Error(), hostileFor("tracker-error", set)) {
+			out.Nonconf = append(out.Nonconf, fmt.Sprintf("the failing tracker did not leave its error text (state %v, err %v)", st, err))
+		}
+	}
 	ver := hostileFor("known-version", set)
 	l.t.AddKnown(netip.MustParseAddrPort("192.0.2.33:6881"), hash.Hash([]byte("-XX0001-abcdefghijkl")), ver, known.Seen)
 	l.t.GetStats()
@@ -607,16 +642,13 @@ func runWebUI(c *Case, out *Out) {
 	}
 	// taint: hostile sources never appear raw in HTML; the escaped form appears where the page shows them
 	if strings.HasPrefix(rec.Header().Get("Content-Type"), "text/html") && rec.Code == 200 && c.Method == "GET" {
-		for _, src := range []string{"name", "dir-component", "file-component", "tracker-url", "webseed-url", "known-version"} {
+		for _, src := range []string{"name", "dir-component", "file-component", "tracker-url", "tracker-error", "webseed-url", "known-version"} {
 			raw := hostileFor(src, set)
 			if strings.Contains(page, raw) {
 				viol("unescaped:"+src, fmt.Sprintf("the %s %q appears unescaped in the page", src, raw))
 			}
 		}
 		for _, src := range c.Shown {
-			if src == "tracker-error" {
-				continue
-			}
 			raw := hostileFor(src, set)
 			esc := html.EscapeString(raw)
 			qesc := url.PathEscape(raw)
